@@ -341,9 +341,30 @@ func fixedCases() [][]string {
 	return [][]string{
 		// free storage: six cheap blobbers, an assigner registered by the owner, valid and forged markers
 		scripted("free", true, true, func(g *gstate) {
-			for k := 0; k < 40 && len(g.lines) < 40; k++ {
+			for k := 0; k < 60 && len(g.lines) < 55; k++ {
 				g.freeStorage()
 			}
+		}),
+		// free storage, redemption order: markers redeemed in DECREASING nonce order, then each replayed, then fresh
+		// ones above, below and between, then replays again (the contract's list of redeemed nonces is unsorted)
+		scripted("free-order", true, false, func(g *gstate) {
+			for k := 0; k < 30 && len(g.assigner) == 0; k++ {
+				g.r = rand.New(rand.NewSource(int64(100 + k))) // avoid the non-owner registration branch repeating
+				g.freeStorage()
+			}
+			for _, n := range []int64{5, 3} {
+				g.validMarker(n, iClient0+int(n)%6, "")
+			}
+			for _, n := range []int64{3, 5} {
+				g.validMarker(n, iClient0+int(n)%6, "replayed-nonce")
+			}
+			for _, n := range []int64{9, 1, 4, 7} {
+				g.validMarker(n, iClient0+int(n)%6, "")
+			}
+			for _, n := range []int64{1, 4, 9, 7, 3, 5} {
+				g.validMarker(n, iClient0+int(n)%6, "replayed-nonce")
+			}
+			g.validMarker(2, iClient0+2, "")
 		}),
 		// rewards: the approved-minter sites (stakepool.MintRewards / MintServiceCharge) on storagesc and zcnsc
 		scripted("rewards", true, false, func(g *gstate) { rewardsScript(g) }),
